@@ -123,6 +123,13 @@ def serialize_value(ex, v, ty=''):
         if v.ty in ('BTreeMap', 'HashMap'):
             return J('map', [(key_of(ex, kv.fields[0]), serialize_value(ex, kv.fields[1])) for kv in v.fields[0].items])
         if v.ty == UNIT_TY and not v.fields: return J('null')
+        if v.ty == 'fmt::Arguments':
+            # impl Serialize for fmt::Arguments: collect_str
+            from .models_fmt import render_args
+            return J('str', render_args(ex, v))
+        if v.ty == 'DelayedFormat':
+            from .models_fmt import display_bytes
+            return J('str', display_bytes(ex, v, 'DelayedFormat'))
         if ex.prog.typedef(v.ty) is not None:
             b = ex.prog.find_method(v.ty, 'Serialize', 'serialize')
             if b is None: raise Unsupported('no Serialize for ' + v.ty)
